@@ -75,6 +75,20 @@ def check_walkfiles(ctx, out, rule="C12.walkfiles"):
             out.viol(rule, "%s|adaptor|%s" % (rule, callee_name(t).split("::")[-1]), ctx.where(wb, t["span"]),
                      "the walker's entries pass through `%s`: entries can be left out" % callee_name(t).split("::")[-1])
     ISDIR = r"^std::path::Path::is_dir$"
+    # the walker is the `ignore` crate's standard one: built by Walk::new / WalkBuilder::new(..).build() without
+    # further configuration (an entry filter prunes whole directories; changed standard filters change
+    # which files are seen)
+    for cb in ctx.facts.with_descendants(wb):
+        for bi, t in cb.calls():
+            nm = callee_name(t)
+            if re.search(r"^ignore::(walk::)?WalkBuilder::", nm) and not re.search(r"WalkBuilder::(new|build)$", nm):
+                out.viol(rule, "%s|configured|%s" % (rule, nm.split("::")[-1]), ctx.where(cb, t["span"]),
+                         "the directory walker is configured with `%s`: what the walk yields is no longer the standard set of non-hidden, non-ignored files (an entry filter also prunes every file below a matching directory, although those files match no --ignore glob themselves)" % nm.split("::")[-1])
+            if callee_matches(t, ISDIR) and t["args"]:
+                labs = ctx.prov.resolve_upvars(cb, ctx.prov.read_operand(cb, t["args"][0]))
+                if P.has_call(labs, r"Path::strip_prefix$|Path::file_name$|Path::(parent|components|iter)$"):
+                    out.viol(rule, "%s|relative-is-dir" % rule, ctx.where(cb, t["span"]),
+                             "`is_dir()` is asked about a path that was made relative to the repository root: the question is answered against the current directory, so the walk yields different files depending on where inside the repository blockwatch is started")
     found = False
     for cb in ctx.facts.with_descendants(wb):
         if cb.kind != "Closure":
@@ -127,7 +141,61 @@ def check_walkfiles(ctx, out, rule="C12.walkfiles"):
     out.inst(rule, n, 1, note="drop sites of the walk closure(s): each guarded by Path::is_dir(path) only")
 
 
+def check_comment_state(ctx, out, rule="C12.rescan"):
+    """A comment can hold several tags; the tag iterator returns them one call at a time. When it
+    hands out a tag, the comment being scanned must still be its current comment: no state in which
+    the iterator returns `Some(..)` has its current-comment field known to be empty (cleared by an
+    assignment of None, a `take()`, a `replace`). Otherwise the tags after a start tag in the same
+    comment are silently dropped - an unmatched end tag among them goes unnoticed. Decided by case
+    analysis (engine.casewalk) over the normalised iterator body, `*self` being an abstract record."""
+    from engine import casewalk as CW
+    n = 0
+    cands = [b for b in ctx.reachable_bodies() if b.promoted is None and b.kind == "AssocFn" and b.id.endswith("::next")
+             and re.search(r"Option<std::result::Result<blockwatch::block_parser::PartialBlock", b.local_ty(0))]
+    std = CW.std_hooks()
+    for b0 in cands:
+        # helper methods of the iterator itself are looked through; everything else stays a call (the
+        # constructors it calls have loops of their own that are irrelevant here)
+        own = b0.impl_self_adt
+        b = ctx.inl(b0, skip=lambda cb: not (own and cb.impl_self_adt == own), tag="own-methods", sugar=True)
+        fld = None
+        for bi, sp, pl in util.all_places(b):
+            for e in pl["p"]:
+                if isinstance(e, dict) and e.get("f") and re.search(r"^std::option::Option<std::rc::Rc<blockwatch::language_parsers::Comment>>$", str(e.get("ty", ""))):
+                    fld = str(e["f"])
+        if fld is None:
+            continue
+        bad = []
+
+        def hook(w, bb, t, argv, env):
+            return std(w, bb, t, argv, env)
+        w = CW.Walk(ctx, b, [hook])
+
+        def on_visit(bb, env):
+            tm = b.blocks[bb]["term"]
+            if not (tm and tm["k"] == "return"):
+                return
+            r0 = env.get(0, CW.TOP)
+            if r0[0] == "adt" and r0[2] == "Some":
+                cur = w.field(env.get(-2, CW.TOP), fld) if env.get(-2, CW.TOP)[0] == "adt" else CW.TOP
+                if cur[0] == "adt" and cur[2] == "None":
+                    bad.append(bb)
+        w.on_visit = on_visit
+        try:
+            w.explore(0, {1: ("ref", -2, (), True)})
+        except CW.Limit as e:
+            out.viol(rule, "%s|%s|limit" % (rule, b0.id), ctx.where(b0), "case analysis of the tag iterator did not finish (%s)" % e)
+            continue
+        if bad:
+            out.viol(rule, "%s|%s|tag-after-clear" % (rule, b0.id), ctx.where(b0),
+                     "the tag iterator can hand out a tag while its current-comment field is empty (cleared / taken and not set again): the next call starts with the following comment, so further tags in the same comment (`<block ..> <block ..>`, or an end tag after a start tag) are dropped and the file's imbalance is not detected")
+        else:
+            n += 1
+    out.inst(rule, n, 1, [b.id for b in cands], note="tag iterators: no Some(..) is returned in a state whose current comment is known to be cleared")
+
+
 def run(ctx, out, tier):
+    check_comment_state(ctx, out)
     check_walkfiles(ctx, out)
     # ------------------------------------------------------------------ C12.stack
     pf = pairing_fn(ctx)
